@@ -94,7 +94,7 @@ Proof.
       destruct Hin as [Hin|Hin]; [discriminate|]. apply UpE. eapply IHb; [exact Eb|exact Hrb|exact Hin].
   - intros me args locs rest r ds H Hr Hin. destruct rest as [|s more]; simpl in H.
     { inversion H; subst. contradiction. }
-    destruct s as [e|e h].
+    destruct s as [e|e h|e fc].
     + destruct (dr_expr f D inp me args locs e) as [[v|k|] d1] eqn:E1.
       * destruct (dr_body f D inp me args (locs ++ [v]) more) as [rb d2] eqn:E2. inversion H; subst.
         apply in_app_or in Hin as [Hin|Hin]; apply UpE; [eapply IHe; [exact E1|discriminate|exact Hin]|eapply IHb; [exact E2|exact Hr|exact Hin]].
@@ -113,6 +113,19 @@ Proof.
            ++ inversion H; subst. congruence.
         -- inversion H; subst. apply UpE. eapply IHe; [exact E1|discriminate|exact Hin].
       * inversion H; subst. congruence.
+    + destruct (dr_expr f D inp me args locs e) as [re d1] eqn:E1.
+      destruct (dr_expr f D inp me args locs fc) as [rc d2] eqn:E2.
+      assert (Hm : re <> OutOfFuel -> rc <> OutOfFuel -> In (RItem m) (RMask :: d1 ++ d2) ->
+                   exists g, g <= S f /\ T D inp g m).
+      { intros Hre Hrc [Hi|Hi]; [discriminate|].
+        apply in_app_or in Hi as [Hi|Hi]; apply UpE; [eapply IHe; [exact E1|exact Hre|exact Hi]|eapply IHe; [exact E2|exact Hrc|exact Hi]]. }
+      destruct re as [v|k|]; [| |inversion H; subst; congruence].
+      * destruct rc as [w|k2|]; [| |inversion H; subst; congruence].
+        -- destruct (dr_body f D inp me args (locs ++ [v]) more) as [rb d3] eqn:E3. inversion H; subst.
+           apply in_app_or in Hin as [Hin|Hin]; [apply UpE; eapply IHe; [exact E1|discriminate|exact Hin]|].
+           apply in_app_or in Hin as [Hin|Hin]; apply UpE; [eapply IHe; [exact E2|discriminate|exact Hin]|eapply IHb; [exact E3|exact Hr|exact Hin]].
+        -- inversion H; subst. apply Hm; [discriminate|discriminate|exact Hin].
+      * destruct rc as [w|k2|]; inversion H; subst; try congruence; (apply Hm; [discriminate|discriminate|exact Hin]).
 Qed.
 
 (** * Descent along an edge *)
